@@ -214,11 +214,13 @@ class Lay:
         self.hout.add(o)
         self.hfull.append(self.map(i))
 
-    def _insert(self, pos: int) -> list[str]:
+    def _insert(self, pos: int, only_groups: bool = False) -> list[str]:
         labels = []
         for s in self.spans:
             a, b = s[0], s[1]
-            if pos < a:
+            if only_groups and not s[2]:
+                pass
+            elif pos < a:
                 labels.append("before")
             elif pos == a == b:
                 labels.append("at-single-mode-span")
@@ -239,7 +241,7 @@ class Lay:
         self.anc.append(pos)
         return labels
 
-    def add(self, sub: "Lay", m: int, group: bool) -> list[str]:
+    def add(self, sub: "Lay", m: int, group: bool, only_groups: bool = False) -> list[str]:
         """returns the position classes of the new ancillas relative to the earlier blocks"""
         mode = self.map(m)
         sh = sub.herald_positions()
@@ -254,7 +256,7 @@ class Lay:
                 stot += 1
         labels: list[str] = []
         for h in sorted(sh):
-            labels += self._insert(mode + h)
+            labels += self._insert(mode + h, only_groups)
         self.spans.append([mode, mode + stot - 1, bool(group or sh)])
         self.uspans.append((m, m + sub.q - 1))
         return labels
@@ -485,15 +487,20 @@ class HistGen:
         if n < 2:
             return
         k = 2 if (n == 2 or rng.random() < 0.7) else min(n, rng.choice([3, 3, 4]))
-        cand = sorted({m for a, b in lay.uspans for m in (a - 1, a, b, b + 1) if 0 <= m < n})
+        # the boundary modes of the blocks (inside: weight 3, just outside: weight 1)
+        cand = [m for a, b in lay.uspans for m in (a - 1, a, a, a, b, b, b, b + 1) if 0 <= m < n]
         if cand and rng.random() < boundary_bias:
             first = rng.choice(cand)
-            rest = rng.sample([m for m in range(n) if m != first], k - 1)
+            pool = [m for m in range(n) if m != first]
+            outside = [m for m in pool if not any(a <= m <= b for a, b in lay.uspans)]
+            if len(outside) >= k - 1 and rng.random() < 0.6:
+                pool = outside  # the other modes lie outside all blocks
+            rest = rng.sample(pool, k - 1)
             modes = [first, *rest]
             self.ctx.count("swap:touches-block-boundary")
         else:
             modes = rng.sample(range(n), k)
-        tgt = modes[1:] + modes[:1] if rng.random() < 0.7 else None
+        tgt = modes[1:] + modes[:1] if rng.random() < 0.85 else None
         if tgt is None:
             pairs = cg.rand_perm_pairs(rng, modes)
         else:
@@ -560,16 +567,27 @@ class HistGen:
         self.ctx.count("block:cell-with-inner-block")
         return cid
 
-    def place(self, parent: str, sub: str, group: bool | None = None, m: int | None = None) -> bool:
+    def place(self, parent: str, sub: str, group: bool | None = None, m: int | None = None,
+              steer: float = 0.0) -> bool:
+        """add `sub` to `parent`; with probability `steer` at a position where a new ancilla lands on a
+        boundary of / inside an earlier block (when there is such a position)"""
         rng = self.rng
         lp, ls = self.lay(parent), self.lay(sub)
         q = ls.q
         if q > lp.n or lp.n == 0:
             return False
-        if m is None:
-            m = rng.randint(0, lp.n - q) if q > 0 else rng.randrange(lp.n)
         if group is None:
             group = rng.random() < 0.6
+        if m is None:
+            valid = list(range(0, lp.n - q + 1)) if q > 0 else list(range(lp.n))
+            m = rng.choice(valid)
+            if ls.nher and lp.spans and rng.random() < steer:
+                want = rng.choice([("at-upper-boundary",), ("at-upper-boundary", "at-lower-boundary", "inside",
+                                                             "at-single-mode-span", "just-after")])
+                good = [x for x in valid if set(lp.copy().add(ls, x, True, only_groups=True)) & set(want)]
+                if good:
+                    m = rng.choice(good)
+                    self.ctx.count("add:heralded-steered-to-block-boundary")
         had = bool(lp.spans)
         self.emit(["add", parent, sub, m, bool(group)])
         if ls.nher:
@@ -581,9 +599,11 @@ class HistGen:
             self.ctx.count("add:grouped" if group else "add:ungrouped")
         return True
 
-    def add_block(self, parent: str, heralded: bool | None = None, subs: list[str] | None = None) -> None:
+    def add_block(self, parent: str, heralded: bool | None = None, subs: list[str] | None = None,
+                  steer: float = 0.0, maxq: int | None = None) -> None:
         rng = self.rng
         lp = self.lay(parent)
+        room = lp.n if maxq is None else max(1, min(lp.n, maxq))
         if heralded is None:
             heralded = rng.random() < 0.4
         reuse = [s for s in (subs or []) if s != parent and self.lay(s).q <= lp.n and
@@ -593,14 +613,14 @@ class HistGen:
             sub = rng.choice(reuse)
             self.ctx.count("block:reused-object")
         elif r < 0.55 or heralded and r < 0.75:
-            sub = self.leaf(lp.n, heralded)
+            sub = self.leaf(room, heralded)
         elif r < 0.85:
-            sub = self.cell(lp.n, heralded)
+            sub = self.cell(room, heralded)
         else:
-            sub = self.unitary(lp.n)
+            sub = self.unitary(room)
         if subs is not None and sub not in subs:
             subs.append(sub)
-        self.place(parent, sub)
+        self.place(parent, sub, steer=steer)
 
     # -- values
     def new_value(self, key: str, kind: str):
@@ -631,21 +651,38 @@ def random_history(ctx, rng) -> tuple[list, str]:
     """one history: a main circuit built by interleaving swaps, plain / grouped / heralded additions,
     unitary blocks and primitive calls; then a family of related circuits; then rewrites on any
     member interleaved with Parameter updates and further edits"""
-    mode = rng.choice(["hoist", "hoist", "params", "family", "mixed"])
+    mode = rng.choice(["hoist", "pattern", "pattern", "params", "family", "mixed"])
     ctx.count("history:" + mode)
-    g = HistGen(ctx, rng, p_param={"hoist": 0.1, "params": 0.5, "family": 0.2, "mixed": 0.3}[mode])
-    n = rng.randint(3, 6)
+    g = HistGen(ctx, rng, p_param={"hoist": 0.1, "pattern": 0.1, "params": 0.5, "family": 0.2, "mixed": 0.3}[mode])
+    n = rng.randint(4, 6) if mode == "pattern" else rng.randint(3, 6)
     main = g.new(n, "m")
     subs: list[str] = []
     members = [main]
     # -- phase 1: the main circuit
     steps = rng.randint(4, 10) if mode == "hoist" else rng.randint(3, 8)
+    hoist = mode == "hoist"
+    if mode == "pattern":
+        # swap, one or two blocks, a heralded addition steered to a block boundary, swap on the boundary modes;
+        # little else, so that few modes are blocked for other reasons
+        steps = 0
+        for rep in range(rng.choice([1, 1, 2])):
+            g.swap(main, boundary_bias=0.5 if rep else 0.0)
+            if rng.random() < 0.3:
+                g.prim(main, kinds=["ps", "bs", "loss"])
+            order = ["block"] * rng.choice([1, 1, 2]) + ["heralded"] * rng.choice([1, 1, 2])
+            if rng.random() < 0.25:
+                rng.shuffle(order)
+            for what in order:
+                g.add_block(main, heralded=what == "heralded", subs=subs, steer=0.8, maxq=2)
+            if rng.random() < 0.3:
+                g.prim(main, kinds=["ps", "barrier"])
+            g.swap(main, boundary_bias=0.9)
     for _ in range(steps):
         r = rng.random()
-        if r < 0.32:
+        if r < (0.4 if hoist else 0.32):
             g.swap(main)
-        elif r < 0.62:
-            g.add_block(main, subs=subs)
+        elif r < (0.85 if hoist else 0.62):
+            g.add_block(main, subs=subs, steer=0.6 if hoist else 0.2)
         elif r < 0.66:
             g.herald(main)
         elif r < 0.72 and mode != "hoist":
@@ -654,12 +691,16 @@ def random_history(ctx, rng) -> tuple[list, str]:
             ctx.count("rewrite-in-mid-construction:" + rw)
         else:
             g.prim(main)
-    if not any(op[0] == "swaps" and op[1] == main for op in g.prog):
+    if mode != "pattern":
+        if not any(op[0] == "swaps" and op[1] == main for op in g.prog):
+            g.swap(main)
         g.swap(main)
-    g.swap(main)
     # -- phase 2: related circuits
-    nfam = {"hoist": rng.choice([0, 0, 1]), "params": rng.choice([0, 1, 2]), "family": rng.randint(2, 5),
-            "mixed": rng.randint(1, 3)}[mode]
+    if mode == "pattern":
+        g.emit(["compress", main])
+        ctx.count("rewrite:compress")
+    nfam = {"hoist": rng.choice([0, 0, 1]), "pattern": rng.choice([0, 0, 1]), "params": rng.choice([0, 1, 2]),
+            "family": rng.randint(2, 5), "mixed": rng.randint(1, 3)}[mode]
     for _ in range(nfam):
         src = rng.choice(members)
         ls = g.lay(src)
@@ -829,7 +870,8 @@ def _param_prim(g: HistGen, cid: str, n: int, pk: str, idx: int) -> None:
 
 PLACEMENTS = ["top", "group", "ungrouped", "nested-gg", "nested-gu", "nested-ug", "heralded", "shared"]
 RW_SEQS = [["compress"], ["nonadj"], ["unpack"], ["copy", "compress"], ["copy", "nonadj"], ["copyf"],
-           ["compress", "nonadj", "unpack"], ["nonadj", "compress"], ["unpack", "compress", "nonadj"]]
+           ["compress", "nonadj", "unpack"], ["nonadj", "compress"], ["unpack", "compress", "nonadj"],
+           ["compress", "copy"], ["nonadj", "copyf", "compress"]]
 
 
 def corpus_params(ctx, rng):
@@ -943,6 +985,9 @@ def corpus_family(ctx, rng):
                     g.place(hid, orig, group=grp, m=idx % 2)
                     g.emit(["swaps", hid, _pairs(0, 5)])
                     ids[name] = hid
+                if idx % 2 == 0:
+                    # an edit that updates the herald tables of ONE member in place
+                    g.emit(["herald", ids[target], idx % 3, 0, 0])
                 g.emit([rw, ids[target]])
                 for other in rel:
                     if other != target:
